@@ -30,7 +30,8 @@ Universal(c, k) ==
     (IF o.ret # "ok" THEN {} ELSE
        (IF o.others THEN {"other-counter-changed"} ELSE {}) \cup
        (IF o.parked /\ o.cur THEN {"parked-with-mapping"} ELSE {}) \cup
-       (IF PrevParked(c, k) /\ ~o.parked THEN {"unparked"} ELSE {}) \cup
+       (IF PrevParked(c, k) /\ ~o.parked /\ ~RotateLike(o.op) /\ o.op # "read" THEN {"unparked"} ELSE {}) \cup
+       (IF o.dbl THEN {"double-unmap"} ELSE {}) \cup
        (IF o.op = "add" /\ PrevParked(c, k) /\ (o.dP # 0 \/ o.files) THEN {"parked-file-written"} ELSE {}) \cup
        (IF o.op = "add" /\ o.dP < 0 THEN {"persisted-decreased"} ELSE {}) \cup
        (IF o.op = "add" /\ o.dP + o.dE > o.n THEN {"count-invented"} ELSE {}) \cup
@@ -44,7 +45,7 @@ Class(c, k, pr) ==
        (IF p.park = "yes" /\ ~o.parked THEN {"not-parked"} ELSE {}) \cup
        (IF p.park = "no" /\ o.parked THEN {"parked-without-cause"} ELSE {}) \cup
        (IF p.mode = "persist" /\ ~(o.dP = o.n + o.pe /\ o.dE = 0 - o.pe) THEN {"not-persisted"} ELSE {}) \cup
-       (IF p.mode = "memory" /\ ~(o.dP = 0 /\ o.dE = o.n) THEN {"not-in-memory"} ELSE {})
+       (IF p.mode = "memory" /\ ~(o.dP = 0 /\ o.dE >= 0 /\ o.dE <= o.n) THEN {"not-in-memory"} ELSE {})
 
 UploadRules(c, k) ==
     LET o == c.steps[k] IN
